@@ -54,7 +54,14 @@ impl DependentRule for SerializableRule {
 
 impl<L: Language> DependentRule for (L, SerializableRuleCore) {
   fn visit_dependency<'a>(&'a self, sorter: &mut TopologicalSort<'a, Self>) -> OrderResult<()> {
-    visit_dependent_rule_ids(&self.1.rule, sorter)
+    visit_dependent_rule_ids(&self.1.rule, sorter)?;
+    // the local utils of a global utility rule can refer to global utilities as well, this very rule included
+    if let Some(utils) = &self.1.utils {
+      for rule in utils.values() {
+        visit_dependent_rule_ids(rule, sorter)?;
+      }
+    }
+    Ok(())
   }
 }
 
